@@ -124,7 +124,7 @@ def _added(prop):
     except ImportError:
         return ""
     t = ADDED.get(prop)
-    return (" ADDED AFTER THE SECOND ROUND OF SEEDED CHANGES: " + t) if t else ""
+    return (" ADDED AFTER THE LATER ROUNDS OF SEEDED CHANGES: " + t) if t else ""
 
 
 def load_known():
